@@ -34,6 +34,33 @@ def bind_params(I, f):
     return env
 
 
+def sub_vec_index(v, rep):
+    """substitute the loop variable inside atom indices and coefficients of a Vec"""
+    out = Vec()
+    for a, c in v.t.items():
+        a2 = (a[0],) + tuple(sp.expand(sp.sympify(x).xreplace(rep)) if not isinstance(x, str) else x for x in a[1:])
+        out = out.add(Vec({a2: sp.sympify(c).xreplace(rep)}))
+    return out
+
+
+def upper_excl(L):
+    """exclusive upper bound of an ascending unit-stride loop, whatever the comparison it is written with"""
+    if L.step != 1 or L.hi is None:
+        return None
+    return L.hi if L.cond_op == "<" else (L.hi + 1 if L.cond_op == "<=" else None)
+
+
+def reindex(L, key, rho):
+    """The loop seen from the slot it writes: with key = loop variable + c, returns (substitution var -> rho - c,
+    first slot, one past the last slot); None when the key is not the loop variable plus a constant."""
+    i = L.var
+    c = sp.expand(sp.sympify(key) - i)
+    ue = upper_excl(L)
+    if i in c.free_symbols or ue is None:
+        return None
+    return {i: rho - c}, sp.expand(L.lo + c), sp.expand(ue + c)
+
+
 def run(chk):
     F = facts_for(chk)
     for short in SPLINES:
@@ -59,7 +86,7 @@ def run(chk):
                 raise Broken("dE/dC: expected one loop")
             L = I.loops[0]
             i = L.var
-            chk.ob("C06-R1", "%s dE/dC loop covers every segment" % cls, L.lo == 0 and L.hi == n and L.cond_op == "<" and L.step == 1, loc(f, {"line": L.line}),
+            chk.ob("C06-R1", "%s dE/dC loop covers every segment" % cls, L.lo == 0 and upper_excl(L) is not None and sym.is_zero(upper_excl(L) - n), loc(f, {"line": L.line}),
                    "range %s..%s" % (L.lo, L.hi), construct="%s/dEdC/range" % cls)
             cs = spec.coeff_atoms(M.m_coeffs, K * i, K)
             T = M.dur(i)
@@ -98,13 +125,14 @@ def run(chk):
             pe = spec.deriv_at(cs, s, T)
             ref = sp.expand(sym.vdot(pe, pe))
             effs = [e for e in L.effects if e.target == out.name]
-            ok = len(effs) == 1 and effs[0].op == "=" and effs[0].key == (i,) and sp.expand(M.expand_scalar(effs[0].value) - ref) == 0
+            ri = reindex(L, effs[0].key[0], i) if len(effs) == 1 else None
+            ok = ri is not None and effs[0].op == "=" and sp.expand(M.expand_scalar(sp.sympify(effs[0].value).xreplace(ri[0])) - ref) == 0
             chk.ob("C06-R2", "%s partial dE/dT_i = |p^(%d)(T_i)|^2" % (cls, s), ok, loc(f, {"line": L.line}),
                    "code: %s" % (sp.sstr(M.expand_scalar(effs[0].value))[:200] if effs else "no write"), construct="%s/dEdT-partial" % cls)
             pre = [e for e in I.effects if e.target == out.name]
             chk.ob("C06-R2", "%s partial dE/dT sized N, loop over all segments" % cls,
-                   bool(pre) and pre[0].op == "resize" and sym.is_zero(pre[0].value[0] - n) and L.lo == 0 and L.hi == n, loc(f), "resize(%s), range %s..%s" % (pre[0].value if pre else None, L.lo, L.hi),
-                   construct="%s/dEdT-partial/range" % cls)
+                   bool(pre) and pre[0].op == "resize" and sym.is_zero(pre[0].value[0] - n) and ri is not None and sym.is_zero(ri[1]) and sym.is_zero(ri[2] - n), loc(f),
+                   "resize(%s), slots %s..%s" % (pre[0].value if pre else None, ri[1] if ri else None, ri[2] if ri else None), construct="%s/dEdT-partial/range" % cls)
 
             # ---- R3 ---------------------------------------------------------------
             f = F.func1(cls, "getEnergyGradTimes")
@@ -116,15 +144,17 @@ def run(chk):
             cs = spec.coeff_atoms(M.m_coeffs, K * i, K)
             ref = spec.hamiltonian(cs, s, 0)
             effs = [e for e in L.effects if not e.target.startswith("$")]
-            ok = len(effs) == 1 and effs[0].op == "=" and effs[0].key == (i,) and sp.expand(M.expand_scalar(effs[0].value) - ref) == 0
-            got_d, _ = sym.collect_dots(sp.expand(M.expand_scalar(effs[0].value))) if effs else ({}, 0)
+            ri = reindex(L, effs[0].key[0], i) if len(effs) == 1 else None
+            val3 = sp.sympify(effs[0].value).xreplace(ri[0]) if ri is not None else None
+            ok = ri is not None and effs[0].op == "=" and sp.expand(M.expand_scalar(val3) - ref) == 0
+            got_d, _ = sym.collect_dots(sp.expand(M.expand_scalar(val3))) if ri is not None else ({}, 0)
             want_d, _ = sym.collect_dots(ref)
             for key in sorted(set(got_d) | set(want_d), key=str):
                 g, w = got_d.get(key, 0), want_d.get(key, 0)
                 chk.ob("C06-R3", "%s dE/dT_i term <%s|%s>" % (cls, sym.atom_str(key[0]), sym.atom_str(key[1])), sym.is_zero(g - w), loc(f, {"line": L.line}),
                        "code %s ; H = -|p^(s)|^2 + 2 sum (-1)^(k+1) p^(s-k).p^(s+k) gives %s" % (sp.sstr(g), sp.sstr(w)), construct="%s/dEdT/<%s|%s>" % (cls, key[0], key[1]))
             chk.ob("C06-R3", "%s total dE/dT_i (whole form, written to slot i, all segments)" % cls,
-                   ok and L.lo == 0 and L.hi == n and isinstance(ret, Container) and ret.name == effs[0].target, loc(f), "range %s..%s" % (L.lo, L.hi), construct="%s/dEdT/whole" % cls)
+                   ok and sym.is_zero(ri[1]) and sym.is_zero(ri[2] - n) and isinstance(ret, Container) and ret.name == effs[0].target, loc(f), "slots %s..%s" % ((ri[1], ri[2]) if ri else (None, None)), construct="%s/dEdT/whole" % cls)
 
             # ---- R4 ---------------------------------------------------------------
             f = F.func1(cls, "getEnergyGradInnerPoints")
@@ -137,13 +167,15 @@ def run(chk):
             csR = spec.coeff_atoms(M.m_coeffs, K * i, K)
             ref = spec.inner_point_grad(csL, csR, s, M.dur(i - 1))
             effs = [e for e in L.effects if not e.target.startswith("$")]
-            ok = len(effs) == 1 and effs[0].op == "=" and sym.is_zero(effs[0].key[0] - (i - 1))
-            okv, d = vec_eq(expand_vec(M, effs[0].value), ref) if effs else (False, None)
+            # seen from the output: row r holds the gradient of interior knot r + 1 (i below is the knot index)
+            ri = reindex(L, effs[0].key[0] + 1, i) if len(effs) == 1 else None
+            ok = ri is not None and effs[0].op == "="
+            okv, d = vec_eq(expand_vec(M, effs[0].value.subs_index(ri[0]) if hasattr(effs[0].value, "subs_index") else sub_vec_index(effs[0].value, ri[0])), ref) if ok else (False, None)
             chk.ob("C06-R4", "%s dE/dP at interior knot i goes to row i-1 and equals 2(-1)^s * jump of p^(%d)" % (cls, 2 * s - 1), ok and okv, loc(f, {"line": L.line}),
                    "code - reference = %r" % (d.clean() if d is not None else None), construct="%s/dEdP" % cls)
-            chk.ob("C06-R4", "%s dE/dP covers knots 1..N-1" % cls, L.lo == 1 and L.hi == n and L.cond_op == "<" and L.step == 1, loc(f, {"line": L.line}),
-                   "range %s..%s" % (L.lo, L.hi), construct="%s/dEdP/range" % cls)
-            sized = isinstance(ret, Container) and ret.size is not None and sym.is_zero(sp.Max(0, n - 1) - ret.size)
+            chk.ob("C06-R4", "%s dE/dP covers knots 1..N-1" % cls, ri is not None and sym.is_zero(ri[1] - 1) and sym.is_zero(ri[2] - n), loc(f, {"line": L.line}),
+                   "knots %s..%s" % ((ri[1], ri[2]) if ri else (None, None)), construct="%s/dEdP/range" % cls)
+            sized = isinstance(ret, Container) and ret.size is not None and (sym.is_zero(sp.Max(0, n - 1) - ret.size) or sym.is_zero(n - 1 - ret.size))   # N >= 1 past the early return
             chk.ob("C06-R4", "%s dE/dP has N-1 rows" % cls, bool(sized), loc(f), "rows = %s" % (ret.size if isinstance(ret, Container) else ret), construct="%s/dEdP/size" % cls)
 
             # ---- R5 ---------------------------------------------------------------
